@@ -42,6 +42,10 @@ CLAIMED = {
    technique="bounded exhaustive enumeration of ill-typed programs (every statement template x every value-kind filler in every slot, stray-control sequences, degenerate poetic literals) executed in a precondition-asserting build and in the release build",
    text="Every statement form with 1..3 slots x 26 fillers (a name bound to each value kind incl. NaN, 1e30, empty / non-empty / dictionary arrays, a function name, a never-assigned name, a pronoun with and without referent, literals, calls, rolls, saturating indices) in every slot, all sequences <=3/4 of stray break/continue/return items across top-level blocks, and all sequences <=3/4 of degenerate poetic atoms after 7 heads: each parser-accepted program within the reference resource budget is executed in both builds. Verdict: no panic, abort, signal or hang; a renderable error; identical observable result in both builds; and the reference outcome wherever the reference defines one (76% of executed cases).",
    note="Trusted: the checked build asserts rrss's unsafe preconditions; worker deaths are attributed by re-running the chunk in announce mode. Programs beyond the step/size budget are not executed; unspecified programs are judged for crash-freedom only."),
+ "C10": dict(level="exploration", design="§2 C10",
+   technique="exhaustive enumeration of dictionary-building programs x hash seeds until every iteration order of each dictionary has been exercised (seed control by getrandom interposition), comparing all runs byte for byte",
+   text="All programs that build a dictionary from every ordered selection of 2, 3 (thorough 4) keys of mixed kinds and then join / print / compare / copy / raise each error whose message renders the array, plus a parse / lint / runtime-error corpus, are each executed in fresh threads under hash seeds 0,1,2,... The dictionary is read back after every run to learn its actual iteration order and seeds are added until all k! orders have occurred, so 'some order misbehaves' cannot hide behind an unlucky sample. stdout, result, error text, parse errors and lint reports must be identical across all runs and both builds.",
+   note="Trusted: std resolves getrandom through a weak symbol (self-test checks same seed => same order, different seeds => different orders). Cross-process determinism of the CLI binary is covered with C20. Addresses/time: rrss uses neither (no source of them in the code)."),
 }
 NOT_YET = "check under construction in this session (not yet claimed)"
 ids=[json.loads(l)["id"] for l in open("/verif/properties.jsonl")]
